@@ -211,6 +211,19 @@ impl CodeFormatter {
                     _ => (false, true),
                 };
 
+                // A statement that starts on the line on which the previous statement ends gets a line of its own,
+                // otherwise the two would be emitted back to back. A label may be followed by its statement.
+                let starts_on_new_line = token
+                    .trivia()
+                    .map(|t| t.contains(&Trivia::NewLine))
+                    .unwrap_or(false);
+                if !starts_on_new_line
+                    && !matches!(token, Token::Eof(_))
+                    && !matches!(prev_token, Token::Label { block: None, .. })
+                {
+                    self.push("\n");
+                }
+
                 let token_type = std::mem::discriminant(token);
                 let prev_token_type = std::mem::discriminant(prev_token);
 
